@@ -233,8 +233,10 @@ impl SchedulerCore {
 
         // Find the first thread that is not marked as busy and schedule this task on it
         for &(ref busy_rc, ref thread) in threads.iter() {
-            if let Ok(mut busy) = busy_rc.try_lock() {
-                // If the busy lock is held, then we consider the thread to be busy
+            // The busy lock is only held briefly (while a thread fetches its next queue or goes dormant), so we wait for it: treating a
+            // held lock as 'busy' would skip a thread that has just found the schedule empty and is about to go dormant, and the
+            // queue we're scheduling would then never be picked up if no new thread can be spawned
+            if let Ok(mut busy) = busy_rc.lock() {
                 if !*busy {
                     // Clone the busy mutex so we can return this thread to readiness
                     let also_busy =  busy_rc.clone();
